@@ -1,7 +1,7 @@
 """Texts for MANIFEST.json (kept next to props.py so the two stay consistent)."""
 
 ENGINES = [
-    {"name": "e1-vsched", "path": "/verif/engine/vsched", "serves_properties": ["C01", "C06", "C13", "C15", "C17"],
+    {"name": "e1-vsched", "path": "/verif/engine/vsched", "serves_properties": ["C01", "C06", "C13", "C15", "C17", "C20"],
      "kind_free_text": "controlled cooperative scheduler + AST instrumenter for lib/go; stateless DFS over choice sequences with deviation bounding and happens-before state-key pruning; explores the real code, no model"},
 ]
 
@@ -30,5 +30,9 @@ CHECKS["C15"] = dict(engine="e1-vsched", design_ref="DESIGN.md §4 C15", techniq
 CHECKS["C17"] = dict(engine="e1-vsched", design_ref="DESIGN.md §4 C17", technique="stateless model checking of the implementation, unbounded with happens-before state pruning; brute-force linearizability oracle; exhaustive mutation sequences",
     text="All interleavings (no bound) of 2-3 threads creating contexts by every route: op ids pairwise distinct and distinct from the received request's id. All interleavings of 2-3 threads running every operation pair and selected sequences on one shared FContext: the call/return history must be linearizable w.r.t. a three-map reference model (Clone = three reads within its interval), with returned maps and clones mutated afterwards to expose aliasing. Every mutation sequence of length 3-4 on original and clone after cloning (three routes), differential against reference maps.",
     note=E1_NOTE + " Unsynchronised plain accesses (a removed lock) are invisible to a cooperative scheduler; they are looked for by the free-running -race pass.")
+
+CHECKS["C20"] = dict(engine="e1-vsched", design_ref="DESIGN.md §4 C20", technique="stateless model checking of the implementation over a broker model (deviation-bounded DFS, Stop at every stream position)",
+    text="The real fNatsServer (Serve, Stop, handler, worker, drainNatsMessages) over fakenats with a counting processor: worker count 1-2 x queue length 0-2 x burst 2-3 x Stop at every position of the request stream, a racing second publisher, a request published after Stop returned; all schedules of publisher, broker dispatcher, drainer, workers, Serve and Stop to the bound. Oracle: requests routed before Stop was called are processed exactly once and replied before Serve returns; nothing published after Stop returned is processed; nothing is processed or replied twice; Stop and Serve return; no panic.",
+    note=E1_NOTE + " fakenats is a hand-written model of nats.go v1.33.1 (dispatch, Drain, Flush, Barrier) bound to the source by reading, see its header comment.")
 
 NOT_APPLICABLE = {}
